@@ -115,6 +115,59 @@ func sameNamedPackages(name string) *spec.Spec {
 	return b.s
 }
 
+// structValueAndPointer: Struct[S]() where S has a provider (or a Value) and
+// *S has a provider of its own; fields must come from the supplier of S, and
+// the *S provider runs only when *S itself is needed.
+func structValueAndPointer(name string, ptrNeeded, async bool) *spec.Spec {
+	b := newBuilder(name)
+	st := b.strct("Settings", "")
+	host, port := b.nstr("HostName", ""), b.nint("PortNumber", "")
+	b.field(st, "Host", host)
+	b.field(st, "Port", port)
+	pst := b.ptr(st)
+	client := b.ptr(b.strct("Client", ""))
+	p1 := b.fn("LoadDefaults", "", nil, []int{st}, false, false)
+	p2 := b.fn("LoadOverrides", "", nil, []int{pst}, async, true)
+	e := b.expand(st)
+	params := []int{host, port}
+	if ptrNeeded {
+		params = append(params, pst)
+	}
+	p3 := b.fn("NewClient", "", params, []int{client}, async, false)
+	b.inject("InitClient", client, p2, e, p1, p3)
+	b.s.Features = append(b.s.Features, "struct-expansion-with-separate-pointer-provider")
+	return b.s
+}
+
+// foreignAliasSecondFile: two declaration files in one invocation; the second
+// one needs types of a sibling package that are ALIASES declared there (bare
+// and behind a pointer) as injector arguments, so the generator has to spell
+// them under whatever name the import got in that file.
+func foreignAliasSecondFile(name string) *spec.Spec {
+	b := newBuilder(name)
+	b.s.Dynamic = false
+	b.s.Files = []string{"kessoku.go", "wiring1.go"}
+	api := b.ext("api", "api", "")
+	tok := b.strct("Token", api)
+	ptok := b.ptr(tok)
+	b.s.ExtDecl = map[string]string{api: "type Credential = Token\ntype Handle = *Token\n"}
+	cred := b.typ(&spec.Type{Kind: spec.KRaw, Raw: "api.Credential", RawNames: []string{"Credential", "Token"}})
+	pcred := b.typ(&spec.Type{Kind: spec.KRaw, Raw: "*api.Credential", RawNames: []string{"Credential", "Token"}})
+	handle := b.typ(&spec.Type{Kind: spec.KRaw, Raw: "[]api.Handle", RawNames: []string{"Handle"}})
+	svc := b.ptr(b.strct("Service", ""))
+	gw := b.ptr(b.strct("Gateway", ""))
+	p0 := b.fn("NewToken", api, nil, []int{ptok}, false, false)
+	p1 := b.fn("NewService", "", []int{ptok}, []int{svc}, true, true)
+	p2 := b.fn("NewGateway", "", []int{cred, handle}, []int{gw}, true, false)
+	b.inject("InitService", svc, p0, p1)
+	b.inject("InitGateway", gw, p2)
+	b.s.Injectors[1].File = 1
+	b.inject("InitCredentialPassThrough", pcred)
+	b.s.Injectors[2].File = 1
+	b.s.Features = append(b.s.Features, "foreign-alias-in-second-file")
+	return b.s
+}
+
 // corpusSpecs returns the fixed regression declarations that run at every
 // seed for the given property.
 func corpusSpecs(prop string) []*spec.Spec {
@@ -123,8 +176,43 @@ func corpusSpecs(prop string) []*spec.Spec {
 		return []*spec.Spec{twinConfigs("k13a", false), twinConfigs("k13b", true), sameNamedPackages("k13c")}
 	case "C14":
 		return []*spec.Spec{twinConfigs("k14a", false), twinConfigs("k14b", true), sameNamedPackages("k14c")}
-	case "C02", "C01", "C04", "C10", "C11":
-		return []*spec.Spec{twinConfigs("k"+prop[1:]+"a", false), sameNamedPackages("k"+prop[1:]+"c")}
+	case "C04", "C12":
+		return append([]*spec.Spec{twinConfigs("k"+prop[1:]+"a", false), sameNamedPackages("k"+prop[1:]+"c"), foreignAliasSecondFile("k"+prop[1:]+"f")}, keywordSweepSpecs("kw"+prop[1:])...)
+	case "C02", "C01", "C10", "C11":
+		return []*spec.Spec{twinConfigs("k"+prop[1:]+"a", false), sameNamedPackages("k"+prop[1:]+"c"),
+			structValueAndPointer("k"+prop[1:]+"d", false, false), structValueAndPointer("k"+prop[1:]+"e", true, true), foreignAliasSecondFile("k"+prop[1:]+"f")}
 	}
 	return nil
+}
+
+// keywordSweepSpecs: every Go keyword and predeclared identifier, capitalised,
+// as a type name (so that its lower-camel form is the variable base name),
+// ten per program, sync and Async.
+func keywordSweepSpecs(prefix string) []*spec.Spec {
+	names := []string{"Break", "Default", "Func", "Interface", "Select", "Case", "Defer", "Go", "Map", "Struct", "Chan", "Else", "Goto", "Package", "Switch",
+		"Const", "Fallthrough", "If", "Range", "Type", "Continue", "For", "Import", "Return", "Var",
+		"Any", "Bool", "Byte", "Comparable", "Complex64", "Complex128", "Error", "Float32", "Float64", "Int", "Int8", "Int16", "Int32", "Int64", "Rune", "String",
+		"Uint", "Uint8", "Uint16", "Uint32", "Uint64", "Uintptr", "True", "False", "Iota", "Nil", "Append", "Cap", "Clear", "Close", "Complex", "Copy", "Delete",
+		"Imag", "Len", "Make", "Max", "Min", "New", "Panic", "Print", "Println", "Real", "Recover"}
+	var out []*spec.Spec
+	for i := 0; i < len(names); i += 10 {
+		chunk := names[i:min(i+10, len(names))]
+		for _, async := range []bool{false, true} {
+			b := newBuilder(fmt.Sprintf("%s%02d%v", prefix, i/10, map[bool]string{false: "s", true: "a"}[async]))
+			var params, provs []int
+			for k, n := range chunk {
+				t := b.ptr(b.strct(n, ""))
+				provs = append(provs, b.fn(fmt.Sprintf("Provide%s", n), "", nil, []int{t}, async && k%2 == 0, k%3 == 0))
+				params = append(params, t)
+			}
+			app := b.ptr(b.strct("AppRoot", ""))
+			provs = append(provs, b.fn("NewAppRoot", "", params, []int{app}, false, false))
+			b.inject("InitializeAppRoot", app, provs...)
+			// second injector: the same types as arguments (nobody supplies them)
+			b.inject("BuildFromArguments", app, provs[len(provs)-1])
+			b.s.Features = append(b.s.Features, "keyword-and-predeclared-type-names")
+			out = append(out, b.s)
+		}
+	}
+	return out
 }
